@@ -121,9 +121,36 @@ impl<'a> Dev for ZipFile<'a> {
     open spec fn g_pos(&self) -> int { 0 }
     open spec fn g_fault(&self) -> bool { false }
 }
+// C03: the attribute-to-mode table (also proved bit-precisely by Kani: types/unix_mode_mapping)
+pub open spec fn unix_mode_of(f: ZipFileData) -> Option<u32> {
+    if f.external_attributes == 0 { None } else {
+        match f.system {
+            System::Unix => Some(f.external_attributes >> 16),
+            System::Dos => {
+                let base = if 0x10 == (f.external_attributes & 0x10) { ffi::S_IFDIR | 0o0775 } else { ffi::S_IFREG | 0o0664 };
+                Some(if 0x01 == (f.external_attributes & 0x01) { base & 0o0555 } else { base })
+            }
+            _ => None,
+        }
+    }
+}
+impl ZipFileData {
+//@use zfd_unix_mode
+}
+#[verifier::external_body]
+pub fn shim_string_as_str<'b>(s: &'b String) -> (r: &'b str) ensures r@ == s@ { s.as_str() }
 //@impl src/read.rs | impl<'a> ZipFile<'a>
 impl<'a> ZipFile<'a> {
 //@use zipfile_get_reader
+//@use zipfile_compressed_size
+//@use zipfile_size
+//@use zipfile_last_modified
+//@use zipfile_compression
+//@use zipfile_crc32
+//@use zipfile_header_start
+//@use zipfile_central_header_start
+//@use zipfile_unix_mode
+//@use zipfile_name
 }
 // C10: what the streaming reader must report for a local header
 pub open spec fn lstate0(h: Lfh) -> XState {
